@@ -143,7 +143,7 @@ func (p *Path) Decode(format string, v string) bool {
 	re = strings.ReplaceAll(re, "%f", "([0-9]{6})")
 	re = strings.ReplaceAll(re, "%z", "(Z|\\+[0-9]{4}|-[0-9]{4})")
 	re = strings.ReplaceAll(re, "%s", "([0-9]{10})")
-	r := regexp.MustCompile(re)
+	r := regexp.MustCompile("^" + re + "$")
 
 	var groupMapping []string
 	cur := format
